@@ -74,7 +74,7 @@ class Harness:
         self.quick = (tier == 'quick')
         # per-obligation time cap (seconds): the thorough tier is sized by total wall time, not by letting every hard obligation burn
         # its own budget; VERIF_CAP overrides
-        self.cap = float(os.environ.get('VERIF_CAP', '0') or 0) or (45 if self.quick else 75)
+        self.cap = float(os.environ.get('VERIF_CAP', '0') or 0) or (45 if self.quick else 50)
 
     # ------------------------------------------------------------------ bookkeeping from engine runs
     def absorb(self, ctx):
